@@ -593,6 +593,7 @@ Section ProxySessions.
   Variable data : Type.
   Variable sig : ind -> key.
   Variable eva : data -> ind -> fitness.
+  Variable evaf : data -> ind -> fitness.   (* the wrapped evaluator's approximate fast() *)
   Variable P : ind -> Prop.
   Variable eva_toks : list tok.                       (* what eva_.save writes *)
   Variable eva_load : list tok -> option (list tok).  (* eva_.load: the rest of the stream, or failure *)
@@ -603,6 +604,7 @@ Section ProxySessions.
 
   Inductive qev :=
   | QEval (x : ind) | QClear | QData (d : data)
+  | QFast (x : ind)    (* proxy.fast(x): the approximate fitness, straight from the wrapped evaluator *)
   | QSaveLoad.     (* proxy.save(file); a NEW proxy of the same size loads the file *)
 
   Definition qstep (s : pstate data) (e : qev) : pstate data * option fitness * bool :=
@@ -612,6 +614,9 @@ Section ProxySessions.
         (mkp data t' (pdata data s), Some f, true)
     | QClear => (mkp data (proxy_clear (ptab data s)) (pdata data s), None, true)
     | QData d => (mkp data (ptab data s) d, None, true)
+    | QFast x =>
+        let (f, t') := proxy_fast (ptab data s) (sig x) (evaf (pdata data s) x) in
+        (mkp data t' (pdata data s), Some f, true)
     | QSaveLoad =>
         let r := proxy_load eva_load (proxy_save eva_toks (ptab data s)) (fresh (tbits (ptab data s))) in
         (mkp data (snd r) (pdata data s), None, fst r)
@@ -629,6 +634,7 @@ Section ProxySessions.
     match evs with
     | [] => []
     | QEval x :: r => Some (eva d x) :: qdirect d r
+    | QFast x :: r => Some (evaf d x) :: qdirect d r
     | QData d' :: r => None :: qdirect d' r
     | _ :: r => None :: qdirect d r
     end.
@@ -639,6 +645,7 @@ Section ProxySessions.
     | QEval x :: r => dirty = false /\ P x /\ qwf false r
     | QClear :: r => qwf false r
     | QData _ :: r => qwf true r
+    | QFast _ :: r => qwf dirty r       (* fast() never consults the cache: allowed at any time *)
     | QSaveLoad :: r => qwf dirty r
     end.
 
@@ -650,7 +657,7 @@ Section ProxySessions.
     qrun s evs = (qdirect (pdata data s) evs, true).
   Proof.
     induction evs as [|e evs IH]; intros s dirty HI Hok Hwf; [reflexivity|].
-    destruct e as [x| |d|]; cbn [qrun qdirect qstep].
+    destruct e as [x| |d|y|]; cbn [qrun qdirect qstep].
     - cbn in Hwf. destruct Hwf as (Hd & Px & Hwf). specialize (Hok Hd).
       unfold proxy_eval. destruct (find (ptab data s) (sig x)) eqn:Ef.
       + rewrite (IH (mkp data (insert (ptab data s) (sig x) (eva (pdata data s) x)) (pdata data s)) false);
@@ -666,6 +673,8 @@ Section ProxySessions.
         [reflexivity|apply clear_inv; exact HI| |exact Hwf].
       intros _ y Py. cbn [ptab]. unfold proxy_clear. rewrite clear_refines by exact HI. congruence.
     - cbn in Hwf. rewrite (IH (mkp data (ptab data s) d) true); [reflexivity|exact HI|discriminate|exact Hwf].
+    - cbn in Hwf. cbn [proxy_fast].
+      rewrite (IH (mkp data (ptab data s) (pdata data s)) dirty); [reflexivity|exact HI|exact Hok|exact Hwf].
     - cbn in Hwf. unfold proxy_load, proxy_save. rewrite eva_roundtrip.
       destruct (save_load_fresh (ptab data s) HI) as (t' & Hl & HI' & Hb & Hf). rewrite Hl. cbn [fst snd].
       rewrite (IH (mkp data t' (pdata data s)) dirty); [reflexivity|exact HI'| |exact Hwf].
@@ -728,6 +737,7 @@ Section ProxySessions.
     | QEval _ :: r => dirty_after false r
     | QClear :: r => dirty_after false r
     | QData _ :: r => dirty_after true r
+    | QFast _ :: r => dirty_after dirty r
     | QSaveLoad :: r => dirty_after dirty r
     end.
 
@@ -739,7 +749,12 @@ Section ProxySessions.
     - apply IH; assumption.
     - apply IH; assumption.
     - apply IH; assumption.
+    - apply IH; assumption.
   Qed.
+
+  (* fast() never changes what operator() returns: it leaves the cache alone *)
+  Lemma fast_leaves_cache : forall s x, fst (fst (qstep s (QFast x))) = s /\ snd (fst (qstep s (QFast x))) = Some (evaf (pdata data s) x).
+  Proof. intros [t d] x. cbn. split; reflexivity. Qed.
 
   Definition strategy_init (d : data) : list qev := [QData d; QClear].
   Definition strategy_close (d : data) : list qev := [QData d; QClear].
